@@ -36,8 +36,18 @@ CLAIMED["C09"] = (
     "not executed; it follows from per-handler exactness by induction.",
     _NOTE, "DESIGN.md section 5, C09")
 
+CLAIMED["C20"] = (
+    "symbolic def-use summaries (ast abstract evaluation with container "
+    "accumulation) of the fuse/disambiguate functions; MRO-chain agreement of "
+    "get_read_variables and map_expressions",
+    "Structural clauses only: which attributes flow through the dependency "
+    "mapper into the read set, which attributes map_expressions maps, and the "
+    "data flow of ids/names in fusion and disambiguation are decided from the "
+    "source for all inputs. The transitive-reduction clause is declined.",
+    _NOTE, "DESIGN.md section 5, C20")
+
 for _p in ["C01", "C02", "C03", "C05", "C06", "C07", "C10", "C11",
-           "C12", "C13", "C14", "C15", "C16", "C17", "C19", "C20"]:
+           "C12", "C13", "C14", "C15", "C16", "C17", "C19"]:
     NOT_APPLICABLE[_p] = ("check under construction in this revision (see "
                           "DESIGN.md for the planned static rule)")
 NOT_APPLICABLE["C18"] = (
